@@ -286,8 +286,20 @@ func cronsim(t *testing.T, tp *simrt.Tape, opts RunOpts) *Outcome {
 	// handling of the tick (between its listing of the history directory and its reading of the newest record)
 	slowed := map[int]bool{}
 	slowOn := chance(tp, 1, 2)
+	// fault "flag_stat_error": in a quarter of the runs a third of the daemon's look-ups of a suspend flag
+	// that does not exist fail with an error other than "no such file" (EACCES, EIO): a flag that cannot be
+	// looked up is not a flag that is set
+	flagStatErrOn := chance(tp, 1, 4)
+	flagMayExist := map[string]bool{}
 	watchErrOn := chance(tp, 1, 3) // fault "watcher_error": the file notification backend reports errors now and then (no event lost)
 	cfg.FaultPlan = func(op *simrt.OpInfo) simrt.Fault {
+		if flagStatErrOn && op.Kind == "stat" && strings.HasSuffix(op.Path, ".suspend") && strings.HasPrefix(op.Proc.Name, "blackdagger:scheduler") && !flagMayExist[op.Path] {
+			if tp.Chance(simrt.SFault, 1, 3) {
+				op.Proc.W.CountFault("flag_stat_error")
+				return simrt.Fault{Kind: simrt.FErr, Errno: pick2(tp, syscall.EACCES, syscall.EIO)}
+			}
+			return simrt.Fault{}
+		}
 		if op.Kind == "inotify_read" {
 			if watchErrOn && tp.Chance(simrt.SFault, 1, 3) {
 				op.Proc.W.CountFault("watcher_error")
@@ -357,9 +369,11 @@ func cronsim(t *testing.T, tp *simrt.Tape, opts RunOpts) *Outcome {
 		setSusp := func(i int, on bool) {
 			p := flagDir + "/" + strings.ReplaceAll(sc.Dags[i].File, " ", "-") + ".suspend"
 			if on {
+				flagMayExist[p] = true
 				_ = simos.WriteFile(p, nil, 0o644)
 			} else {
 				_ = simos.Remove(p)
+				flagMayExist[p] = false
 			}
 			tl.susp[i] = append(tl.susp[i], fileVer{from: time.Now(), valid: on})
 		}
